@@ -34,8 +34,15 @@ TRUSTED = [
     'raster values are embedded into Z by a common power-of-two scale (the model only tests them for NaN / equality with a barrier)',
     'float instance: Coq PrimFloat add/sqrt/div/abs/compare = NumPy float64; np.rint modelled as (x + 2^52) - 2^52 (round half even), '
     'int() of the rounded value by binary decomposition; validated only by the bit-exact correspondence run',
-    'exact instance: the comparison of a + b*sqrt2 + sqrt n values (Model.sgn3, by repeated squaring) is not proved against the '
-    'reals; it is cross-checked on every run against 80-digit decimal arithmetic and used only by the bounded optimality theorem',
+    'exact instance: the comparison of a + b*sqrt2 + sqrt n values (Model.sgn2 / sgn_plus2root / sgn3, by repeated squaring), '
+    'xc_sqrtZ and xc_add are PROVED against Coq\'s real numbers (C14_exact_order_is_real_order, C14_exact_pair_order_is_real_order, '
+    'C14_exact_sqrt_add_are_real); these and every theorem of PropsOptimal.v (optimality, never-stuck, Bellman-Ford agreement, '
+    'snap at the exact instance) therefore depend on the three axioms of the standard library Reals: '
+    'ClassicalDedekindReals.sig_forall_dec, ClassicalDedekindReals.sig_not_dec, '
+    'FunctionalExtensionality.functional_extensionality_dep (Print Assumptions lists exactly these; the 12 theorems of Props.v stay '
+    'closed under the global context); the comparator is additionally cross-checked on every run against 80-digit decimal arithmetic',
+    'optimality is a theorem about the exact-cost instance (a + b*sqrt2 arithmetic without rounding); that the binary64 run of the '
+    'code reaches the same cells/costs up to rounding is tied to it by the bit-exact float correspondence and the Dijkstra oracle only',
     'facts(): NONE, the neighbour offset tables, the initial bound of _min_cost_pixel_id, the initial distance of '
     '_find_nearest_pixel and the rounding mode of _get_pixel_id are translated from the source by a fail-closed ast matcher',
     'the warnings emitted for uncrossable end points and the xarray wrapping (coords/dims/attrs copy) are not modelled',
@@ -44,31 +51,39 @@ ASSUMPTIONS = [
     'NumPy backend; regularly spaced 1-D coordinates; start and goal lie within the raster extent (cell centres +- half a cell)',
     'route / neighbour / step length are those of the chosen connectivity (4: unit steps; 8: unit and sqrt2 diagonal steps), '
     'diagonal steps may pass between two blocked cells (the code does not forbid corner cutting, nor does the property)',
+    'C14_never_stuck / C14_optimal_equals_bellman_ford: start AND goal cells lie in the grid (a_star_search checks both before calling '
+    'the kernel; C14_a_star_cells_optimal covers the wrapper including a snapped goal of NONE). C14_optimal itself needs only the start in the grid',
 ]
 PARTIAL = [
-    'C14_optimal_full_statement (goal value = minimum over all routes, all grids) is stated but NOT proved; proved only as '
-    'C14_bounded_optimal_small (every layout x start/goal x connectivity on all grids up to 3x3, exact cost instance, vm_compute) '
-    'and checked by the Dijkstra oracle / correspondence on larger mazes',
-    'Stuck outcome: the model stops if _min_cost_pixel_id returns (NONE, NONE) while a cell is open (the code would index [-1][-1]); '
-    'that the bound (height+width)**2 exceeds every cost is argued ((h+w)^2 >= 4hw > (hw-1)*sqrt2 + h + w) but not proved in Coq: '
-    'the universal theorems are stated for runs that do not get stuck, the bounded theorem shows no run on grids <= 3x3 does, '
-    'and the correspondence treats STUCK as a mismatch',
+    'Props.C14_optimal_full_statement and Props.C14_never_stuck_full_statement as originally written (no premise on the goal cell) '
+    'are FALSE and stay unclaimed: with the goal outside the grid the heuristic can reach (height+width)**2 and the kernel model is '
+    'Stuck (C14_never_stuck_full_statement_refuted, C14_optimal_full_statement_refuted: 1x1 surface, goal 5 rows away). Claimed '
+    'instead, for all grids: the same statements with the goal in the grid (C14_never_stuck, C14_optimal_equals_bellman_ford) and '
+    'C14_optimal (goal value = minimum over all routes, NaN iff none; any goal)',
+    'optimality / never-stuck are proved for the EXACT cost instance only; for binary64 costs (non-associative rounding) they are '
+    'not theorems: ties between routes whose exact costs differ by less than an ulp can be broken differently, and the float run is '
+    'covered by the Dijkstra oracle (tolerance 1e-9) and the bit-exact correspondence',
     'float-level facts (bit-exact costs, the coordinate->cell conversion at binary64) are correspondence-only; the nearest-centre '
     'theorem is proved for the exact integer model of the conversion (coordinates on a common scale)',
-    'C14_snap_nearest assumes the order decides sqrt a < sqrt b as a < b (premise ltb_sqrt; checked for the exact instance by '
-    'vm_compute up to 40, true of binary64 for the squared distances that occur)',
+    'C14_snap_nearest (any cost type) keeps the premise that the order decides sqrt a < sqrt b as a < b; it is discharged for the '
+    'exact instance (C14_snap_nearest_exact, all squared distances) and is true of binary64 for the squared distances that occur',
 ]
 LEVEL_TEXT = ('Proved for all grids, barrier sets, offset tables and every cost instance (float or exact): the search never runs out '
               'of its h*w+1 pops nor the back-walk out of its h*w+1 steps; if it returns, then either the non-NaN cells are exactly one '
               'duplicate-free chain start(value 0)->goal of crossable in-grid cells, each step one generated neighbour offset adding '
-              'exactly sqrt(dy^2+dx^2) (1 or sqrt2), or every cell is NaN and no route exists (so: route => chain, no route / '
-              'uncrossable end point => all NaN); snapping returns the first row-major nearest crossable cell (NONE iff none); the '
-              'exact coordinate->cell model picks the nearest centre and maps a centre to its own cell. Optimality is bounded: '
-              'vm_compute over all layouts/pairs/connectivities on grids <= 3x3 at the exact cost instance, elsewhere oracle + '
-              'correspondence. The PrimFloat model is tied to the code by bit-exact comparison of whole outputs.')
+              'exactly sqrt(dy^2+dx^2) (1 or sqrt2), or every cell is NaN and no route exists; snapping returns the first row-major '
+              'nearest crossable cell (NONE iff none); the exact coordinate->cell model picks the nearest centre. '
+              'Proved for all grids, surfaces, barrier sets and both connectivities at the exact cost instance a+b*sqrt2 (whose order, '
+              'sqrt and + are proved to be those of the real numbers): the goal value is the MINIMUM cost over all routes of crossable '
+              'cells (C14_optimal; invariant A5 with the Euclidean heuristic proved consistent), it equals the Bellman-Ford minimum '
+              '(C14_optimal_equals_bellman_ford, with the reference itself proved correct), and the Stuck outcome is unreachable when '
+              'start and goal lie in the grid (C14_never_stuck, C14_a_star_cells_optimal for the wrapper with snapping). '
+              'C14_bounded_optimal_small (vm_compute, grids <= 3x3) remains as a supplement. The PrimFloat model is tied to the code by '
+              'bit-exact comparison of whole outputs; optimality of the binary64 run is oracle + correspondence only.')
 LEVEL_NOTE = ('Trusted: Coq kernel, extraction, the fail-closed facts translator (offset tables, NONE, bounds, rounding mode read from the '
-              'source each run), PrimFloat = NumPy binary64 for + sqrt / abs <, the exact comparator sgn3 (cross-checked numerically), '
-              'the harness and oracle. Unproved: unbounded optimality, unreachability of the Stuck outcome.')
+              'source each run), PrimFloat = NumPy binary64 for + sqrt / abs <, the three standard axioms of Coq\'s Reals library '
+              '(used only by PropsOptimal.v to give the exact order its meaning), the harness and oracle. Unproved: anything about '
+              'optimality under binary64 rounding.')
 
 SQRT2 = math.sqrt(2.0)
 
